@@ -42,6 +42,7 @@ type WMetaFile struct {
 	Special  string        `json:"special,omitempty"` // dir | fifo | dangling-symlink instead of a file
 	Tamper   *TreeMutation `json:"tamper,omitempty"`  // applied to the signed content AFTER signing
 	FileEdit *TreeMutation `json:"file_edit,omitempty"`
+	InCwd    bool          `json:"in_cwd,omitempty"` // the file lies below the verifier's working directory, not in the link directory
 }
 
 type WFile struct {
@@ -267,6 +268,9 @@ func Materialise(w World, root string) (*Built, error) {
 	}
 	for _, f := range w.Links {
 		p := filepath.Join(b.LinkDir, f.Name)
+		if f.InCwd {
+			p = filepath.Join(root, "cwd-extra", f.Name)
+		}
 		if err := os.MkdirAll(filepath.Dir(p), 0o755); err != nil {
 			return nil, err
 		}
@@ -461,6 +465,12 @@ func (b *Built) VerifyWith(layout intoto.Metadata, keys map[string]intoto.Key, p
 	if b.W.Entry == "rundir" {
 		cwd = filepath.Join(runRoot, "cwd")
 		_ = os.MkdirAll(cwd, 0o755)
+	}
+	if _, err := os.Stat(filepath.Join(b.Root, "cwd-extra")); err == nil {
+		if err := copyTree(filepath.Join(b.Root, "cwd-extra"), cwd); err != nil {
+			out.Err = fmt.Errorf("harness: copy files for the working directory: %v", err)
+			return
+		}
 	}
 	out.RunDir = prod
 	old, _ := os.Getwd()
